@@ -31,6 +31,7 @@ type Job struct {
 	Concrete  map[string]string `json:"concrete,omitempty"`
 	Summaries map[string]string `json:"summaries,omitempty"` // callee name -> harness-provided summary function (same package)
 	BudgetAsViolation bool `json:"budget_as_violation,omitempty"`
+	MaxPreempt        int  `json:"max_preempt,omitempty"`
 }
 
 // JobResult is what a worker reports back.
@@ -119,6 +120,7 @@ func (p *Program) RunJob(j Job) (res JobResult) {
 	}
 	x.concrete = j.Concrete
 	x.BudgetAsViolation = j.BudgetAsViolation
+	x.MaxPreempt = j.MaxPreempt
 	if len(j.Summaries) > 0 {
 		x.Summaries = map[*ssa.Function]*ssa.Function{}
 		for from, to := range j.Summaries {
